@@ -57,6 +57,12 @@ CLASHING_VALUE_NAMES = ["match", "case", "type", "print", "list", "str", "id", "
                         "collections", "enum", "property", "staticmethod", "classmethod",
                         "self", "cls", "None_", "_", "__all__", "TypeVar_", "int", "tuple",
                         "Self", "abstractmethod"]
+# Typing member / module names as CLASS members are not generated: the printer's
+# copied visitors lose `_class_members`, which gives a family of perverse defects
+# (notes/C05.md, "class member named like a typing member").
+TYPING_LIKE = frozenset(["Any", "Optional", "Union", "Callable", "Self", "typing", "builtins",
+                         "collections", "enum", "TypeVar_", "Literal", "Generic"])
+CLASS_MEMBER_CLASH_NAMES = [n for n in CLASHING_VALUE_NAMES if n not in TYPING_LIKE]
 STRING_LITERALS = ["", "a", "b c", "it's", 'say "x"', "it's \"x\"", "back\\slash", "new\nline",
                    "tab\t", "café", "中", "]", "[", ",", "Literal[1]", "None", "#c", "b'x'",
                    "'", '"', "\\", "a, b", "{}", "%s", "\x00", "\U0001f600"]
@@ -179,8 +185,11 @@ def generate_type(rng, depth, classes, typevars=(), enums=(), allow_nothing=Fals
           named("typing.Callable"),
           tuple(rec(d - 1, allow_nothing and rng.random() < 0.04) for _ in range(n)) +
           (rec(d - 1),))
-    if k < 0.60:   # Callable[..., r]
-      return pytd.GenericType(named("typing.Callable"), (pytd.AnythingType(), rec(d - 1)))
+    if k < 0.60:   # Callable[..., r]; pytype collapses Callable[..., Any] to bare Callable
+      ret = rec(d - 1)
+      if isinstance(ret, pytd.AnythingType):
+        return named("typing.Callable")
+      return pytd.GenericType(named("typing.Callable"), (pytd.AnythingType(), ret))
     if k < 0.78:   # Union / Optional
       n = rng.choice([2, 2, 2, 3, 4])
       ms = [rec(d - 1) for _ in range(n)]
@@ -476,7 +485,7 @@ class _Gen:
           return n
 
     for _ in range(rng.choice([0, 1, 2, 3])):
-      n = mname("a", CLASHING_VALUE_NAMES)
+      n = mname("a", CLASS_MEMBER_CLASH_NAMES)
       t = self.ty(typevars=tvs, nothing=True)
       r = rng.random()
       if r < 0.18:
@@ -659,6 +668,10 @@ class _Gen:
         t = pytd.GenericType(named("typing.Final"), (self.ty(1),))
       else:
         t = self.ty(nothing=True)
+      if nm in TYPING_LIKE and isinstance(t, pytd.GenericType) and t.base_type.name == "builtins.type":
+        # `Any: type[typing.Any]` is deliberately rewritten by the printer to an import
+        # (PrintVisitor._DropTypingConstant); not part of what a module can declare
+        t = bnamed("int")
       constants.append(pytd.Constant(nm, t))
     if rng.random() < 0.10 and "__all__" not in self.used:
       self.used.add("__all__")
